@@ -4,7 +4,9 @@
    That the library's directory operations refine this model (return codes, tree, file contents, free count) is judged
    per explored history: implementation vs extracted model vs extracted decoder (checks/c02.py). *)
 From Coq Require Import ZArith List Bool.
-From ADF Require Import CPrelude Spec.Names Spec.FsSpec Proofs.FsSpecP.
+From ADF Require Import CPrelude Spec.Names Spec.FsSpec Proofs.FsSpecP Model.Chain Proofs.ChainP.
+Import ListNotations.
+Local Open Scope Z_scope.
 
 Theorem C02_fail_identity : forall intl root hs o root' hs',
   step intl root hs o = (root', hs', RErr) -> root' = root /\ hs' = hs.
@@ -18,3 +20,42 @@ Proof. exact step_queries_pure. Qed.
 
 Print Assumptions C02_fail_identity.
 Print Assumptions C02_queries_pure.
+
+(* Block level.  Model/Chain.v is the directory as adf_dir.c maintains it on disk: a 72-slot hash table, nextSameHash chains,
+   lookup by upper-cased name, new entries linked behind the last entry of their chain, removal by unlinking (tied to the C
+   code by the block-level correspondence of checks/c02.py: hash table and every chain link of the image after every call).
+   For EVERY history of creates and deletes, with any allocator that hands out unused blocks, it behaves as a finite map from
+   keys to blocks: same results call by call, and afterwards every present entry is found under its name, absent ones are
+   not, chains stay acyclic with distinct blocks and distinct keys (R = invariant + agreement of all lookups). *)
+Theorem C02_directory_refines_map : forall intl ops F G d A,
+  R intl F d A -> (F + length ops <= G)%nat -> valid intl A ops ->
+  R intl (F + length ops) (fst (run intl G d ops)) (fst (arun intl A ops)) /\
+  snd (run intl G d ops) = snd (arun intl A ops).
+Proof. exact history_refines. Qed.
+
+Theorem C02_empty_directory : forall intl, R intl 1 empty_dir (fun _ => None).
+Proof. exact R_empty. Qed.
+
+(* a refused create or delete leaves the directory as it was *)
+Theorem C02_chain_fail_identity : forall intl G d o,
+  match o with CIns n blk => insert intl G d n blk = None | CDel n => remove intl G d n = None end ->
+  cstep intl G d o = (d, -1).
+Proof. intros intl G d [n blk|n] H; cbn [cstep]; rewrite H; reflexivity. Qed.
+
+(* deleting unlinks exactly the named entry: its block leaves the directory, every other name is found as before *)
+Theorem C02_delete_exact : forall intl F G d A n b,
+  R intl F d A -> (F <= G)%nat -> A (key intl n) = Some b ->
+  exists d', remove intl G d n = Some (d', b) /\ R intl F d' (adel intl A n) /\ d_hp d' b = None.
+Proof. exact remove_refines. Qed.
+
+Example C02_chain_history :
+  let ops := [CIns [97] 900; CIns [98;98] 901; CIns [65] 902; CDel [97]; CIns [65] 903; CDel [120]] in
+  snd (run false 100 empty_dir ops) = [0; 0; -1; 900; 0; -1].
+Proof. vm_compute. reflexivity. Qed.
+Example C02_chain_valid_history : valid false (fun _ => None) [CIns [97] 900; CDel [97]].
+Proof. simpl. repeat split; intros; discriminate. Qed.
+
+Print Assumptions C02_directory_refines_map.
+Print Assumptions C02_empty_directory.
+Print Assumptions C02_delete_exact.
+Print Assumptions C02_chain_fail_identity.
